@@ -8,6 +8,7 @@ package main
 import (
 	"fmt"
 	"os"
+	"sort"
 	"strings"
 	"time"
 
@@ -36,6 +37,9 @@ type cfg struct {
 	MaxCons  int      `json:"max_consumers"`
 	Video    bool     `json:"video"`
 	Alphabet []string `json:"alphabet"`
+	// Rtsp: the RTSP server is on and its subscribers do not wait for a key frame (so that a joining
+	// player is fed from the first frame and the depth bound reaches its queue-full instants)
+	Rtsp bool `json:"rtsp"`
 }
 
 type replay struct {
@@ -48,6 +52,8 @@ type cstate struct {
 	stallTicks int
 	everStall  bool
 	closedOK   bool
+	fullAtTick bool // stalled with a full write queue when the previous tick ended
+	rtpBefore  int
 }
 
 type sys struct {
@@ -57,6 +63,9 @@ type sys struct {
 	viols  []seqx.Viol
 	infra  error
 	lastEv string
+	// byte counters of every session when the last liveness check ran: whether a session has moved
+	// since then decides what the next check does with it, so it is part of the state
+	atTick map[string][2]uint64
 }
 
 func (s *sys) add(key, f string, a ...interface{}) {
@@ -70,11 +79,19 @@ func conn(c *sw.Consumer) *netsim.Conn {
 	if c.Http != nil {
 		return c.Http.Conn
 	}
+	if c.Rtsp != nil {
+		return c.Rtsp.Conn
+	}
 	return nil
 }
 
 func newSys(c cfg) *sys {
-	s := &sys{c: c, x: sw.New(world.Conf{}), cs: map[int]*cstate{}}
+	conf := world.Conf{}
+	if c.Rtsp {
+		conf["rtsp.enable"] = true
+		conf["rtsp.out_wait_key_frame_flag"] = false
+	}
+	s := &sys{c: c, x: sw.New(conf), cs: map[int]*cstate{}}
 	s.x.W.Net.QuiesceTimeout = 5 * time.Second
 	if ok, err := s.x.PubArrive(); err != nil || !ok {
 		s.infra = fmt.Errorf("publisher: %v", err)
@@ -148,6 +165,12 @@ func (s *sys) Apply(ev string) error {
 	x := s.x
 	var err error
 	pubBefore := len(x.Published)
+	for _, c := range x.Consumers {
+		if st := s.cs[c.ID]; st != nil {
+			st.rtpBefore = c.RtpPkts
+		}
+	}
+	fullBefore := map[int]bool{}
 	switch {
 	case ev == "P5": // five audio frames, one after the other (a macro step: reaches queue-full at small depth)
 		for i := 0; i < 5 && err == nil; i++ {
@@ -185,7 +208,7 @@ func (s *sys) Apply(ev string) error {
 			st.stalled, st.everStall, st.stallTicks = true, true, 0
 		case 'R':
 			conn(c).Stall(false)
-			st.stalled = false
+			st.stalled, st.fullAtTick = false, false
 		case 'X':
 			// the write deadline of the blocked write expires
 			conn(c).FailWrites(os.ErrDeadlineExceeded)
@@ -199,12 +222,19 @@ func (s *sys) Apply(ev string) error {
 			}
 		}
 	case ev == "T":
+		for _, c := range s.live() {
+			fullBefore[c.ID] = s.cs[c.ID].fullAtTick
+		}
 		err = x.Tick()
 		for _, c := range s.live() {
-			if s.cs[c.ID].stalled {
-				s.cs[c.ID].stallTicks++
+			st := s.cs[c.ID]
+			if st.stalled {
+				st.stallTicks++
 			}
+			// the writer goroutine holds at most one message, the channel queueSize more
+			st.fullAtTick = st.stalled && conn(c).Pending() >= queueSize+1
 		}
+		s.atTick = s.counters()
 	default:
 		return fmt.Errorf("unknown event %s", ev)
 	}
@@ -266,7 +296,11 @@ func (s *sys) Apply(ev string) error {
 				}
 			}
 		}
-		if strings.HasPrefix(ev, "P") && !st.everStall && c.Kind != "ts" && len(P) > pubBefore && !gated {
+		if c.Kind == "rtsp" {
+			if strings.HasPrefix(ev, "P") && !st.everStall && len(P) > pubBefore && c.RtpPkts == st.rtpBefore {
+				s.add("healthy-consumer-delayed/rtsp", "no RTP packet reached consumer %d (rtsp), which has never stalled, while %s was published", c.ID, ev)
+			}
+		} else if strings.HasPrefix(ev, "P") && !st.everStall && c.Kind != "ts" && len(P) > pubBefore && !gated {
 			if !seen[len(P)-1] {
 				s.add("healthy-consumer-delayed/"+c.Kind, "message #%d (%s) was not delivered to consumer %d (%s), which has never stalled", len(P)-1, P[len(P)-1].Kind, c.ID, c.Kind)
 			}
@@ -275,11 +309,29 @@ func (s *sys) Apply(ev string) error {
 		if !st.stalled && cn.Pending() > 0 {
 			s.add("queue-not-drained/"+c.Kind, "consumer %d (%s) is reading but %d writes are still queued after the step settled", c.ID, c.Kind, cn.Pending())
 		}
+		// its queue was already full when the previous liveness check ended and it has not read since:
+		// nothing can have been written to it (or accepted for it) during this whole interval
+		if ev == "T" && st.stalled && fullBefore[c.ID] {
+			s.add("stalled-consumer-not-disconnected/"+c.Kind, "consumer %d (%s) has not read and its write queue (%d) has been full for a whole liveness interval, and the check left it attached", c.ID, c.Kind, queueSize)
+		}
 		if st.stalled && st.stallTicks >= 4 {
 			s.add("stalled-consumer-not-disconnected/"+c.Kind, "consumer %d (%s) has not read for %d ticks (liveness check every tick) and is still attached", c.ID, c.Kind, st.stallTicks)
 		}
 	}
 	return nil
+}
+
+func (s *sys) counters() map[string][2]uint64 {
+	m := map[string][2]uint64{}
+	if g := s.x.W.SM.StatGroup(s.x.Stream); g != nil {
+		if g.StatPub.SessionId != "" {
+			m[g.StatPub.SessionId] = [2]uint64{g.StatPub.ReadBytesSum, g.StatPub.WroteBytesSum}
+		}
+		for _, u := range g.StatSubs {
+			m[u.SessionId] = [2]uint64{u.ReadBytesSum, u.WroteBytesSum}
+		}
+	}
+	return m
 }
 
 func (s *sys) Check() []seqx.Viol { v := s.viols; s.viols = nil; return v }
@@ -288,13 +340,25 @@ func (s *sys) Fingerprint() string {
 	var sb strings.Builder
 	sb.WriteString(s.x.W.Dump())
 	fmt.Fprintf(&sb, " |pub=%d alive=%v", minI(len(s.x.Published), 6), s.x.Pub != nil && !s.x.Pub.Conn.Closed())
+	now := s.counters()
+	var mv []string
+	for id, v := range now {
+		kind := strings.TrimRight(id, "0123456789")
+		if o, ok := s.atTick[id]; ok {
+			mv = append(mv, fmt.Sprintf("%s:r%v,w%v", kind, v[0] != o[0], v[1] != o[1]))
+		} else {
+			mv = append(mv, kind+":unchecked")
+		}
+	}
+	sort.Strings(mv)
+	fmt.Fprintf(&sb, " since-check=%v", mv)
 	for _, c := range s.x.Consumers {
 		if c.Left {
 			continue
 		}
 		st := s.cs[c.ID]
 		cn := conn(c)
-		fmt.Fprintf(&sb, " c[%s stalled=%v ever=%v ticks=%d pend=%d blocked=%d]", c.Kind, st.stalled, st.everStall, minI(st.stallTicks, 4), minI(cn.Pending(), queueSize+2), cn.BlockedWriters())
+		fmt.Fprintf(&sb, " c[%s stalled=%v ever=%v ticks=%d pend=%d blocked=%d full=%v]", c.Kind, st.stalled, st.everStall, minI(st.stallTicks, 4), minI(cn.Pending(), queueSize+2), cn.BlockedWriters(), st.fullAtTick)
 	}
 	return sb.String()
 }
@@ -311,10 +375,12 @@ func configs(r *vk.Run) []cfg {
 		{Name: "rtmp+flv", Kinds: []string{"rtmp", "flv"}, MaxCons: 2},
 		{Name: "wsflv+ts", Kinds: []string{"wsflv", "ts"}, MaxCons: 2},
 		{Name: "rtmp-video", Kinds: []string{"rtmp"}, MaxCons: 2, Video: true},
+		{Name: "rtsp", Kinds: []string{"rtsp"}, MaxCons: 1, Video: true, Rtsp: true},
 	}
 	if !r.Quick() {
 		cs = append(cs, cfg{Name: "all-kinds", Kinds: []string{"rtmp", "flv", "wsflv", "ts"}, MaxCons: 3},
-			cfg{Name: "flv-video", Kinds: []string{"flv", "ts"}, MaxCons: 2, Video: true})
+			cfg{Name: "flv-video", Kinds: []string{"flv", "ts"}, MaxCons: 2, Video: true},
+			cfg{Name: "rtsp+rtmp", Kinds: []string{"rtsp", "rtmp"}, MaxCons: 2, Video: true, Rtsp: true})
 	}
 	return cs
 }
@@ -328,11 +394,11 @@ func main() {
 	httpts.SubSessionWriteChanSize = queueSize
 	rtsp.VerifSetWriteChanSize(queueSize)
 	base.LogicCheckSessionAliveIntervalSec = 1
-	r.Rule("states = distinct canonical fingerprints (server dump, per consumer: stalled, ever stalled, ticks since the stall, queued writes, blocked writers) reached by event sequences over {P:aac|inter|key, P5, J:rtmp|flv|wsflv|ts, S:i (consumer i stops reading), R:i (resumes), X:i (the blocked write's deadline expires), T}; write queues are enabled with size 6 and P5 publishes five frames in a row so that queue-full instants are reached within the depth bound. distinct_nontrivial = states")
+	r.Rule("states = distinct canonical fingerprints (server dump, per session whether its byte counters moved since the last liveness check, per consumer: stalled, ever stalled, ticks since the stall, queued writes, blocked writers) reached by event sequences over {P:aac|inter|key, P5, J:rtmp|flv|wsflv|ts|rtsp, S:i (consumer i stops reading), R:i (resumes), X:i (the blocked write's deadline expires), T}; write queues are enabled with size 6 and P5 publishes five frames in a row so that queue-full instants are reached within the depth bound. distinct_nontrivial = states")
 	r.Assume("the asynchronous write queues of naza's connection are instrumented (generated copy, see tools/vgen): the in-memory connection knows how many queued writes are outstanding, so a step is settled exactly when every queue is drained or its writer is blocked on the stalled peer",
 		"'never delays by more than a small bound' is decided as: the step in which the publisher's message is processed settles with the message delivered to every consumer that has never stalled and with the publisher's session idle again",
 		"write deadlines do not fire by themselves (no real-time timers in an execution): X:i is the event 'the deadline of the blocked write expires'",
-		"RTSP subscribers are not driven here (their interleaved framing is checked in C12/C06); one stream")
+		"RTSP subscribers are interleaved (TCP) players of a stream with video, with rtsp.out_wait_key_frame_flag off; their liveness is decided by lal from the packets it accepted for them, so 'must be disconnected' is demanded only after a whole check interval with a full queue; one stream")
 	mk := func(c cfg) func() seqx.Sys { return func() seqx.Sys { return newSys(c) } }
 	if r.ReplayIn != "" {
 		var rp replay
